@@ -196,6 +196,7 @@ def run_pool(modname, shards, tier, nproc=None, progress=True):
     total = Acc(mod.ID, predicates=getattr(mod, "PREDICATES", {}))
     results = {}
     errors = []
+    times = []
     jobs = [(i, s, tier) for i, s in enumerate(shards)]
     if nproc <= 1 or len(shards) <= 1:
         _worker_init_inproc(mod)
@@ -211,12 +212,16 @@ def run_pool(modname, shards, tier, nproc=None, progress=True):
             done = 0
             for idx, acc, err, dt in pool.imap_unordered(_worker_run, jobs, chunksize=1):
                 done += 1
+                times.append((dt, idx))
                 if err:
                     errors.append((idx, err))
                 else:
                     results[idx] = acc
                 if progress and (done % max(1, len(jobs) // 10) == 0):
                     sys.stderr.write("  [%s] shard %d/%d\n" % (mod.ID, done, len(jobs)))
+    if progress and times:
+        times.sort(reverse=True)
+        sys.stderr.write("  [%s] slowest shards: %s\n" % (mod.ID, "; ".join("%.1fs %s" % (dt, jdump(shards[i])[:80]) for dt, i in times[:3])))
     if errors:
         raise HarnessError("shard %r failed:\n%s" % (shards[errors[0][0]], errors[0][1]))
     for i in sorted(results):
